@@ -216,7 +216,7 @@ def cq_bool(b): return "true" if b else "false"
 def cq_opt_bytes(o): return "None" if o is None else "(Some %s)" % cq_bytes(o)
 
 PRELUDE = """From RN Require Import Base.Bytes Model.StyleDef Model.CaseModel Model.Constraints.
-From RN Require Import Gen.GenAcronyms Gen.GenStyles Model.Enhanced Model.HunkTail.
+From RN Require Import Gen.GenAcronyms Gen.GenStyles Model.Enhanced Model.HunkTail Proofs.HunkTailP2.
 Open Scope N_scope.
 Set Printing Width 100000000.
 Set Printing Depth 100000000.
@@ -356,7 +356,12 @@ def main():
             i = cs["id"]; body += case_defs(cs)
             for j, m in enumerate(cs["matches"]):
                 fires, cv, note = cs["orc"][j]
-                body += ("Eval vm_compute in enc_hunk (hunk_of_match gen_acronyms (fun _ _ _ _ _ => %s) (fun _ _ _ => %s) "
+                if os.environ.get("MODEL_ORACLES"):
+                    # the coercion oracles are the MODEL of coercion.rs (Proofs/HunkTailP2.v::hunk_of_match_m)
+                    body += ("Eval vm_compute in enc_hunk (hunk_of_match_m gen_acronyms (fun _ _ _ _ _ => %s) ex_%d o_%d vm_%d c_%d %s %s).\n"
+                             % (cs["resolve"][j], i, i, i, i, cq_bytes(cs["replace"]), cq_match(m)))
+                else:
+                    body += ("Eval vm_compute in enc_hunk (hunk_of_match gen_acronyms (fun _ _ _ _ _ => %s) (fun _ _ _ => %s) "
                          "(fun _ _ _ => %s) (fun _ _ _ => %s) ex_%d o_%d vm_%d c_%d %s %s).\n"
                          % (cs["resolve"][j], cq_bool(fires), cq_opt_bytes(cv), cq_bool(note), i, i, i, i,
                             cq_bytes(cs["replace"]), cq_match(m)))
